@@ -483,7 +483,7 @@ func (r *Resolver) resolve(ctx context.Context, rs *resolveState) (*dns.Msg, err
 	// stops at the first record of the question's type and the NS address
 	// collector takes every address it finds, neither looking at the owner.
 	if len(resp.Answer) > 0 {
-		resp.Answer = answerChain(resp.Answer, minReq.Question[0].Name)
+		resp.Answer = answerChain(resp.Answer, minReq.Question[0].Name, minReq.Question[0].Qtype)
 	}
 
 	serverFailureResponse := false
